@@ -178,6 +178,8 @@ JBuildMapping(e) ==
      R("C11", "over_limit_rejected_not_truncated", ~enc, ~r.ok, cls),
      R("C11", "encoding_is_canonical", enc /\ r.ok /\ DistinctKeys(e.pairs), r.ser = CanonicalSer(e.pairs), cls),
      R("C11", "encoding_is_deterministic", r.ok, r.same, cls),
+     \* the bytes handed out belong to the caller: serialising other mappings afterwards does not change them
+     R("C11", "serialisation_kept_by_caller_unchanged_by_later_serialisations", r.ok /\ "kept_same" \in DOMAIN r, r.kept_same, cls),
      R("C11", "size_field_counts_following_bytes", r.ok /\ Len(r.ser) >= 2, U16(r.ser, 0) = Len(r.ser) - 2, cls),
      R("C11", "bytes_parse_back_to_same_map", enc /\ r.ok /\ DistinctKeys(e.pairs),
        r.rt.nerr = 0 /\ r.rt.remlen = 0 /\ r.rt.mapeq /\ r.rt.ser2 = r.ser, cls),
